@@ -1192,6 +1192,9 @@ _W = 'chainables/courier_worker.py'
 _O = 'chainables/orchestrate.py'
 _U = 'utils/courier_utils.py'
 VARIANTS = [
+    OK('next-batch-answer-awaited-through-a-local', 'utils/courier_utils.py',
+       "        output_batch = lazy_fns.maybe_make(\n            await asyncio.wrap_future(output_state)\n        )\n",
+       "        raw_batch = await asyncio.wrap_future(output_state)\n        output_batch = lazy_fns.maybe_make(raw_batch)\n"),
     B('repoll-after-a-timed-out-next-batch', 'utils/courier_utils.py',
       "        output_batch = lazy_fns.maybe_make(\n            await asyncio.wrap_future(output_state)\n        )\n",
       "        try:\n          output_batch = lazy_fns.maybe_make(\n              await asyncio.wrap_future(output_state)\n          )\n        except Exception as e:  # pylint: disable=broad-exception-caught\n          if is_timeout(e) and self.is_alive:\n            continue\n          raise\n", 'R-C06-23'),
